@@ -8,7 +8,7 @@ from . import gen_pp
 
 DIRS = ["", "src", "src/core", "src/core/deep", "include", "lib", "lib/util", "lib/src", "src/lib", "include/core"]
 C_EXT = [".c", ".cpp", ".h", ".hpp", ".cu", ".cc"]
-PLATFORM_NAMES = ["cpu", "gpu", "fpga", "arm"]
+PLATFORM_NAMES = ["cpu", "gpu", "fpga", "arm", "cuda-12.1"]  # a name with a dot: it ends up in file names (dendrogram, databases)
 
 FORTRAN_SNIPPETS = [
     "program p\n  implicit none\n  integer :: i\n#ifdef A\n  i = 1\n#else\n  i = 2\n#endif\n  ! comment only\n  print *, i\nend program p\n",
